@@ -631,7 +631,7 @@ func c03Run(r *core.Run) {
 		}
 	}
 	if r.Thorough() {
-		r.SetBudget(22 * time.Minute)
+		r.SetBudget(35 * time.Minute)
 		rich := c03Behaviours(3, "T", "TC", "TN", "NT", "TCN", "TNC", "CT", "TW", "TT", "TTC", "G", "GN", "GW")
 		mid := c03Behaviours(2, "T", "TC", "TN", "NT", "TCN", "TNC", "CT", "TW", "TT", "TTC", "G", "GN", "GW")
 		plans = []plan{
